@@ -240,6 +240,7 @@ class Tracer(object):
         self.sim_index = 0
         self.state_reset = True
         self.fresh_start = True
+        self.log_base = 0
         self.phase_w = [m for m in self.monitors if hasattr(m, "on_phase")]
         self.write_w = [m for m in self.monitors if hasattr(m, "on_write")]
         self.call_w = [m for m in self.monitors if hasattr(m, "on_call")]
@@ -257,6 +258,7 @@ class Tracer(object):
             if self.state_reset:
                 self.prev_rec = None
                 self.last = {}
+                self.log_base = len(project.cost_list)   # logs kept from earlier runs (log_info=False)
             self.state_reset = False
         absent = project.time in self.absence
         snap = Snap(project, phase, absent)
